@@ -28,8 +28,13 @@ HAND = [
     ('hand-C10-clef', 'C10', 'kernpy/core/gkern.py', "return AgnosticPitch('G', 2)", "return AgnosticPitch('A', 2)"),
     ('hand-C18-own', 'C18', 'kernpy/core/fing_spine_importer.py', 'return SimpleToken(encoding, TokenCategory.FINGERING)\n\n        ACCEPTED',
      'return SimpleToken(encoding, TokenCategory.LYRICS)\n\n        ACCEPTED'),
-    ('hand-C20-mapping', 'C20', 'kernpy/io/public.py', '        kern_type=encoding,\n        instruments=instruments,\n        show_measure_numbers=show_measure_numbers,\n        spine_ids=spine_ids\n    )\n    return generic.Generic.store(',
-     '        kern_type=None,\n        instruments=instruments,\n        show_measure_numbers=show_measure_numbers,\n        spine_ids=spine_ids\n    )\n    return generic.Generic.store('),
+    ('hand-C20-mapping', 'C20', 'kernpy/io/public.py', '        kern_type=encoding,\n        instruments=instruments,\n        show_measure_numbers=show_measure_numbers,\n        spine_ids=spine_ids\n    )\n\n    return generic.Generic.store(',
+     '        kern_type=None,\n        instruments=instruments,\n        show_measure_numbers=show_measure_numbers,\n        spine_ids=spine_ids\n    )\n\n    return generic.Generic.store('),
+    ('hand-C03-barline', 'C03', 'kernpy/core/base_antlr_spine_parser_listener.py', "        if ctx.fermata():\n            txt_without_number += ctx.fermata().getText()", "        if ctx.fermata() and not ctx.barLineType():\n            txt_without_number += ctx.fermata().getText()"),
+    ('hand-C15-step', 'C15', 'kernpy/core/document.py', "                    if subtoken.category == TokenCategory.PITCH:", "                    if subtoken.category != TokenCategory.DURATION:"),
+    ('hand-C06-rowloop', 'C06', 'kernpy/core/exporter.py', "            if len(row) > 0 and not all(token in nullish_tokens for token in row):", "            if len(row) > 1 and not all(token in nullish_tokens for token in row):"),
+    ('hand-C19-concat', 'C19', 'kernpy/core/generic.py', "            low_index = high_index + 1  # Next", "            low_index = high_index  # Next"),
+    ('hand-C12-line', 'C12', 'kernpy/core/importer.py', "token = ErrorToken(column, self._row_number, str(error))", "token = ErrorToken(column, self._row_number - 1, str(error))"),
 ]
 
 
